@@ -215,6 +215,12 @@ def run(ctx):
         n = rng.choice([2, 3, 4, 7, 16, 40])
         num = [rng.randint(-256, 256) / 64.0 for _ in range(n)]
         den = [rng.randint(64, 512) / 128.0 for _ in range(n)]
+        if i % 4 == 3:
+            # a total energy: large ratio, small spread (what the routine is used for)
+            n = 64
+            e0 = rng.choice([-76.5, -230.25, -14.875])
+            den = [rng.randint(96, 160) / 128.0 for _ in range(n)]
+            num = [d * (e0 + rng.randint(-8, 8) / 8192.0) for d in den]
         bad, out = spec_jackknife(num, den)
         for c, d in bad:
             d.update({"num": num, "den": den})
